@@ -49,11 +49,11 @@ theorem Frame.plug_error (F : Frame) (Γ Γ' : Env) (e : Expr) (d : Diag)
     | ok ca =>
       simp only [h1, bind_ok] at henv
       simp only [Frame.plug, tc, h1, bind_ok]
-      split at henv
-      · rename_i ec et hct
-        simp at henv; subst henv
-        simp [hct, he]
-      · simp at henv
+      cases hit : forinIter ca with
+      | none => simp [hit] at henv
+      | some it =>
+        simp [hit] at henv; subst henv
+        simp [he]
   | callF ln args => simp [Frame.env] at henv; subst henv; simp [Frame.plug, tc, he]
   | callA ln f pre post =>
     simp only [Frame.env] at henv
@@ -89,7 +89,7 @@ theorem Frame.plug_error (F : Frame) (Γ Γ' : Env) (e : Expr) (d : Diag)
       · simp at henv
   | arrayE ln pre post ec ety =>
     obtain ⟨⟨cs, h1⟩, rfl⟩ := seq_pure_ok (by simpa [Frame.env] using henv)
-    simp [Frame.plug, tc, tcArgs_app_error Γ' e post d he pre cs h1]
+    simp [Frame.plug, tc, tcRows_app_error Γ' e post d he pre cs h1]
   | derefA ln idx => simp [Frame.env] at henv; subst henv; simp [Frame.plug, tc, he]
   | derefI ln a pre post =>
     simp only [Frame.env] at henv
@@ -212,14 +212,9 @@ theorem Frame.plug_prefix (F : Frame) (Γ : Env) (e : Expr) (d : Diag)
     | ok ca =>
       simp only [h1, bind_ok] at henv
       simp only [Frame.plug, tc, h1, bind_ok]
-      split at henv
-      · simp at henv
-      · rename_i hne
-        simp at henv; subst henv
-        split
-        · rename_i ec et hct
-          exact absurd hct (hne ec et)
-        · rfl
+      cases hit : forinIter ca with
+      | none => simp [hit] at henv; subst henv; rfl
+      | some it => simp [hit] at henv
   | callF ln args => simp [Frame.env] at henv
   | callA ln f pre post =>
     simp only [Frame.env] at henv
@@ -263,7 +258,7 @@ theorem Frame.plug_prefix (F : Frame) (Γ : Env) (e : Expr) (d : Diag)
         · rfl
   | arrayE ln pre post ec ety =>
     have h1 := seq_pure_error (by simpa [Frame.env] using henv)
-    simp [Frame.plug, tc, tcArgs_app_prefix Γ pre _ d h1]
+    simp [Frame.plug, tc, tcRows_app_prefix Γ pre _ d h1]
   | derefA ln idx => simp [Frame.env] at henv
   | derefI ln a pre post =>
     simp only [Frame.env] at henv
